@@ -6,6 +6,7 @@ database content `db` (any number of rows, NULLs, duplicates, empty tables).
 -/
 import SideVerif.Layer.GenSingle
 import SideVerif.Proofs.SpecFlat
+import SideVerif.Proofs.Having
 namespace SideVerif
 open Sql
 
@@ -147,5 +148,52 @@ example : (match genSingle exModel exQueryRaw with | .ok p => p == exPlanRaw | .
     exPlanRaw.fusableRaw exCteRaw = true ∧ exPlanRaw.fuseRaw exCteRaw = Spec.flatRaw exModel exQueryRaw ∧
     (exPlanRaw.body exDb).length = 4 := by
   refine ⟨?_, ?_, ?_, ?_⟩ <;> decide
+
+/-! ### the whole result of a grouped query: metric-value filters, ORDER BY, OFFSET, LIMIT -/
+
+/-- **Grouped queries, whole result.** For a covered plan whose HAVING is the generator's translation of the
+query's metric-value filters (all of structural shape — decidable, evaluated by the driver on every case, evidence
+`cases_inside_theorem_C01_grouped_result`), the rows the plan returns — after HAVING, ORDER BY, OFFSET and LIMIT — are
+exactly `Spec.finish` of the reference groups: metric-value filters are predicates on the aggregated output row, the
+sort is the stable sort by the requested keys (NULL smallest) and the slice is the requested one; for all table
+contents. -/
+theorem C01_grouped_result {m : SModel} {q : Query} {p : Plan} {c : Cte} (h : Covered m q p c)
+    (hh : p.having = (Spec.metricFilters m q).map (havingOf m))
+    (hs : (Spec.metricFilters m q).all havingShape = true)
+    (db : DB) (hpk : Spec.PkOK m (c.source.rows db)) :
+    p.eval db = Spec.finish m q (Spec.grouped m q (c.source.rows db)) := by
+  obtain ⟨_, hsl, ho⟩ := C01_limit_offset h.gen
+  have hord : p.order = q.orderBy.map fun (f, d) => ((splitFirstDot f).map (·.2) |>.getD f, d) := by
+    rw [ho]
+    apply List.map_congr_left
+    intro fd _
+    obtain ⟨f, d⟩ := fd
+    simp only
+    cases hsp : splitFirstDot f with
+    | none => rfl
+    | some ab => obtain ⟨a, b⟩ := ab; rfl
+  have hfilt : (Spec.grouped m q (c.source.rows db)).filter (havingHolds p.having) =
+      (Spec.grouped m q (c.source.rows db)).filter fun out =>
+        (Spec.metricFilters m q).all fun f => ((f.mapCols (outCol m)).eval out).isTrue := by
+    apply List.filter_congr
+    intro out _
+    rw [hh, havingHolds_map m _ hs out]
+  unfold Plan.eval Spec.finish
+  simp only [C01_grouped h db hpk, hsl, hfilt, hord, List.isEmpty_map]
+  rfl
+
+def exQueryHaving : Query :=
+  { exQuery with filters := [.bin .gt (.col "o.rev") (.lit (.num 0))], orderBy := [("o.rev", true)], limit := some 1 }
+def exPlanHaving : Plan := match genSingle exModel exQueryHaving with | .ok p => p | .error _ => default
+def exCteHaving : Cte := exPlanHaving.ctes.headD default
+
+/-- the hypotheses of `C01_grouped_result` are met by a query with a metric-value filter, ORDER BY and LIMIT -/
+example : (match genSingle exModel exQueryHaving with | .ok p => p == exPlanHaving | .error _ => false) = true ∧
+    exPlanHaving.fusable exCteHaving = true ∧ exPlanHaving.fuse exCteHaving = Spec.flat exModel exQueryHaving ∧
+    exPlanHaving.having = (Spec.metricFilters exModel exQueryHaving).map (havingOf exModel) ∧
+    (Spec.metricFilters exModel exQueryHaving).all havingShape = true ∧
+    (Spec.metricFilters exModel exQueryHaving).length = 1 ∧
+    (exPlanHaving.body exDb).length = 2 := by
+  refine ⟨?_, ?_, ?_, ?_, ?_, ?_, ?_⟩ <;> decide +kernel
 
 end SideVerif
